@@ -1160,9 +1160,14 @@ class SshX509CertificateChain(ParsableBase, SshHostKeyBase):
 
         parser.parse_numeric('certificate_count', 4)
         certificates = []
+        if not parser['certificate_count']:
+            raise InvalidValue(parser['certificate_count'], cls, 'certificate_count')
         for _ in range(parser['certificate_count']):
             parser.parse_bytes('certificate', 4)
-            certificates.append(PublicKeyX509.from_der(bytes(parser['certificate'])))
+            try:
+                certificates.append(PublicKeyX509.from_der(bytes(parser['certificate'])))
+            except ValueError as e:
+                six.raise_from(InvalidValue(parser['certificate'], cls, 'certificate'), e)
 
         parser.parse_numeric('ocsp_response_count', 4)
         ocsp_responses = []
